@@ -151,7 +151,7 @@ def main():
         pass
     m = {
         "version": 1,
-        "setup_cmd": "cd lean && lake build",
+        "setup_cmd": "./setup.sh",
         "hooks": {
             "guard": "JAQALPAQ_VERIF",
             "enable": "no source hooks are needed: every check observes /repo through its public API and class attributes, in-process, from the working tree (the venv installs jaqalpaq in editable mode)",
